@@ -2,7 +2,7 @@ import Model.Ecdh
 /-!
 # Model.EcdhSkel — a statement language for `src/ecdsa/ecdh.py` and its interpreter
 
-`harness/translate/gen_ecdh.py` turns every method of class `ECDH` in the working tree into a list of these statements
+`harness/translate/gen_ecdhskel.py` turns every method of class `ECDH` in the working tree into a list of these statements
 (`Generated/EcdhSkel.lean`; a source construct outside this language is a broken tie).  The interpreter gives them the
 meaning Python gives the source; `Props/C05s.lean` proves that the interpreted *generated* program is the hand-written
 state machine `Model/Ecdh.lean` the C05 theorems are about.
